@@ -211,7 +211,11 @@ class MerLossH(Harness):
         kw = dict(eos=c["eos"], include_eos=c["include_eos"], sub_avg=c["sub_avg"], batch_first=c["batch_first"], norm=c["norm"],
                   ins_cost=c["costs"][0], del_cost=c["costs"][1], sub_cost=c["costs"][2], reduction=c["reduction"], warn=False)
         if c.get("as_module"):
-            return Mo.MinimumErrorRateLoss(**kw)(lp, ref, hyp)
+            import inspect
+            ok = set(inspect.signature(Mo.MinimumErrorRateLoss.__init__).parameters)
+            with __import__("warnings").catch_warnings():
+                __import__("warnings").simplefilter("ignore")
+                return Mo.MinimumErrorRateLoss(**{k: v for k, v in kw.items() if k in ok})(lp, ref, hyp)
         return F.minimum_error_rate_loss(lp, ref, hyp, **kw)
 
     def _er(self, ref2, hyp2):
@@ -320,7 +324,7 @@ META = dict(
         "softmax stubbed by its contract: w>=0, rows sum to 1 (real softmax outputs are a subset)",
         "the loss is checked relative to the library's own error_rate (itself checked against the DP oracle by the other harness)",
     ],
-    outside=["costs off the quarter grid", "lengths beyond the bound", "TorchScript variants", "gradients of the loss"],
+    outside=["costs off the quarter grid", "lengths beyond the bound", "TorchScript variants", "gradients of the loss", "a zero-width hypothesis tensor together with exclude_last (no prefix exists; the library raises IndexError there)"],
 )
 
 M_ = "checks.c02"
@@ -357,6 +361,8 @@ def tasks(tier):
                     ts.append(task(PROP, M_, "ErrorRateH", R=R, H=H, N=2, V=V, fn="er", costs=uneq, exclude_last=False, **f))
                     ts.append(task(PROP, M_, "ErrorRateH", R=R, H=H, N=2, V=V, fn="er", costs=eq, exclude_last=False, **f))
                     for xl in (False, True):
+                        if xl and H == 0:
+                            continue  # zero-width hypothesis with exclude_last: no prefix exists (excluded, as in C03's quantifier)
                         ts.append(task(PROP, M_, "ErrorRateH", R=R, H=H, N=2, V=V, fn="prefix", costs=[0.5, 1.0, 1.25], exclude_last=xl, **f))
         for f in flags:
             if f["batch_first"]:
